@@ -80,6 +80,9 @@ pub struct RCfg {
     /// the prefix `xml` is bound to another namespace name (`xmlns:xml="urn:zzz"`, `xmlns:xml=""`):
     /// forbidden by Namespaces in XML, accepted by xot (C03:xml-prefix-rebound-accepted)
     pub xml_rebind: bool,
+    /// few prefixes, few namespaces, many prefixed names: the same prefix is bound, re-bound below and used
+    /// again after the inner scope has closed (a cached resolution must not survive the scope: seeds C02g, C08g)
+    pub shadowing: bool,
     pub max_depth: usize,
 }
 
@@ -98,11 +101,12 @@ impl RCfg {
             comment_pi_cr: rng.chance(1, 2),
             reserved: rng.chance(1, 6),
             xml_rebind: rng.chance(1, 10),
+            shadowing: rng.chance(1, 4),
             max_depth: 1 + rng.below(3),
         }
     }
     pub fn plain() -> RCfg {
-        RCfg { cdata_cr: false, uri_refs: false, xmlid_spaces: false, local_xmlns: false, lone_empty_cdata: false, latin1: false, decl_eq_space: true, twin_prefixes: false, xml_alias: false, comment_pi_cr: false, reserved: false, xml_rebind: false, max_depth: 2 }
+        RCfg { cdata_cr: false, uri_refs: false, xmlid_spaces: false, local_xmlns: false, lone_empty_cdata: false, latin1: false, decl_eq_space: true, twin_prefixes: false, xml_alias: false, comment_pi_cr: false, reserved: false, xml_rebind: false, shadowing: false, max_depth: 2 }
     }
 }
 
